@@ -611,15 +611,15 @@ func (w *World) NewIndexPath() string {
 }
 
 type OpenOpts struct {
-	Index      string // index file ("" = world's live index)
-	Drive      string // drive file ("" = world's drive)
-	ReadOnly   bool
-	NoWriteOps bool // serve-http composition: writeOps=nil, getFileBuffer=nil
-	KeySet     int  // -1 = world's
-	NoInit     bool // do not call Initialize
-	Cfg        *Config
-	RootProp   string
-	PlainIndex bool // do not wrap the persister (no faults/monitor)
+	Index            string // index file ("" = world's live index)
+	Drive            string // drive file ("" = world's drive)
+	ReadOnly         bool
+	NoWriteOps       bool // serve-http composition: writeOps=nil, getFileBuffer=nil
+	KeySet           int  // -1 = world's
+	NoInit           bool // do not call Initialize
+	Cfg              *Config
+	RootProp         string
+	PlainIndex       bool // do not wrap the persister (no faults/monitor)
 	WriteImpliesRead bool
 }
 
@@ -637,13 +637,14 @@ type Stack struct {
 	Index string
 	// key material of this stack
 	EncRecipient, EncIdentity, SigRecipient, SigIdentity interface{}
-	Backend                                             config.BackendConfig
+	Backend                                              config.BackendConfig
 	// header events of the write side (what the legitimate writer signed)
 	Events  []*config.HeaderEvent
 	InitErr error
 }
 
 func (w *World) Open(o OpenOpts) (*Stack, error) {
+	heartbeat()
 	cfg := w.Cfg
 	if o.Cfg != nil {
 		cfg = *o.Cfg
@@ -725,12 +726,12 @@ func (st *Stack) Close() {
 
 type nopLogger struct{}
 
-func (nopLogger) Info(string, ...interface{})          {}
-func (nopLogger) Debug(string, ...interface{})         {}
-func (nopLogger) Trace(string, ...interface{})         {}
-func (nopLogger) Warn(string, ...interface{})          {}
-func (nopLogger) Error(string, ...interface{})         {}
-func (nopLogger) Panic(string, ...interface{})         {}
+func (nopLogger) Info(string, ...interface{})        {}
+func (nopLogger) Debug(string, ...interface{})       {}
+func (nopLogger) Trace(string, ...interface{})       {}
+func (nopLogger) Warn(string, ...interface{})        {}
+func (nopLogger) Error(string, ...interface{})       {}
+func (nopLogger) Panic(string, ...interface{})       {}
 func (l nopLogger) With(...interface{}) golog.Logger { return l }
 
 var _ logging.StructuredLogger = nopLogger{}
